@@ -45,8 +45,6 @@ impl<T: RefCnt> HybridProtection<T> {
     fn attempt(node: &LocalNode, storage: &AtomicPtr<T::Base>) -> Option<Self> {
         // Relaxed is good enough here, see the Acquire below
         let ptr = storage.load(Relaxed);
-        #[cfg(arc_swap_verif)]
-        verif_rt::event(verif_rt::probes::FAST_FIRST_READ, ptr as usize);
         // Try to get a debt slot. If not possible, fail.
         let debt = node.new_fast(ptr as usize)?;
 
@@ -69,7 +67,9 @@ impl<T: RefCnt> HybridProtection<T> {
             // It changed in the meantime, but the debt for the previous pointer was already paid
             // for by someone else, so we are fine using it.
             #[cfg(arc_swap_verif)]
-            verif_rt::event(verif_rt::probes::FAST_CHANGED_PAID, ptr as usize);
+            verif_rt::event(verif_rt::probes::FAST_CHANGED_PAID, debt as *const Debt as usize);
+            #[cfg(arc_swap_verif)]
+            verif_rt::event(verif_rt::probes::READER_STORAGE, storage as *const _ as usize);
             Some(unsafe { Self::new(ptr, None) })
         }
     }
@@ -83,8 +83,6 @@ impl<T: RefCnt> HybridProtection<T> {
         // the pointer. We just need to make sure to bring the pointee in (this can be newer than
         // what we got in the Debt)
         let candidate = storage.load(SeqCst);
-        #[cfg(arc_swap_verif)]
-        verif_rt::event(verif_rt::probes::FAST_FIRST_READ, candidate as usize);
 
         // Try to replace the debt with our candidate. If it works, we get the debt slot to use. If
         // not, we get a replacement value, already protected and a debt to take care of.
@@ -102,7 +100,9 @@ impl<T: RefCnt> HybridProtection<T> {
                 // back right away.
                 if !unused_debt.pay::<T>(candidate) {
                     #[cfg(arc_swap_verif)]
-                    verif_rt::event(verif_rt::probes::FB_HELPED_AND_PAID, candidate as usize);
+                    verif_rt::event(verif_rt::probes::FB_HELPED_AND_PAID, unused_debt as *const Debt as usize);
+                    #[cfg(arc_swap_verif)]
+                    verif_rt::event(verif_rt::probes::READER_STORAGE, storage as *const _ as usize);
                     unsafe { T::dec(candidate) };
                 }
                 // We got a (possibly) different pointer out. But that one is already protected and
